@@ -562,6 +562,14 @@ def run_check(pid: str, tier: str, seed: int, replay: str | None = None) -> int:
             broken.append({"kind": "correspondence-run", "name": st.name, "detail": err[-2000:]})
         info["model_disagreements"] = len(bad)
         failing_idx = {id(f["case"]) for f in failures}
+        # a disagreement on a case whose only oracle failure is an OPEN known finding is attributed to that
+        # finding (once a defect has manifested the model no longer describes the run)
+        open_known = {k["signature"] for k in load_known(pid) if k.get("status") == "open"}
+        known_case = {id(f["case"]) for f in failures
+                      if f["stream"] is st and st.classify(f["case"], f["result"], f["failure"]) in open_known}
+        attributed = [b for b in bad if id(cases[term_idx[b]]) in known_case]
+        bad = [b for b in bad if id(cases[term_idx[b]]) not in known_case]
+        info["disagreements_attributed_to_known_findings"] = len(attributed)
         for b in bad[:5]:
             ci = term_idx[b]
             detail = {"case": cases[ci], "impl": results[ci],
